@@ -368,6 +368,16 @@ pub fn write_string(value: &[u8]) -> String {
     }
 }
 
+/// Writes a string between quotes, whatever its length: line feeds are always escaped, so
+/// the literal never spans several lines.
+pub fn write_string_on_one_line(value: &[u8]) -> String {
+    if value.len() <= 1 {
+        write_string(value)
+    } else {
+        write_quoted(value)
+    }
+}
+
 pub fn write_interpolated_string_segment(segment: &StringSegment) -> String {
     let value = segment.get_value();
 
